@@ -114,3 +114,42 @@ PROPS["C08"] = dict(
     assumptions=HNSW_ASSUME + ["bit patterns of symbolic floats are opaque variables: only their transport through byte streams (extract/concat) is modelled, no program compares them"],
     replays_per_signature=1,
 )
+
+PROPS["C07"] = dict(
+    level="model_checking",
+    technique="bounded symbolic execution of go/ssa (gosmt) + SMT (z3) with a brute-force rank oracle over the same distance terms",
+    explanation="insert-only collections of n <= 2M+1 symbolic points with n <= max(ef,k); every level assignment in {0,1}, ef, efConstruction, k, both selection modes; each returned score must have exactly the rank of its position among all n query distances",
+    runs={
+        "quick": [
+            dict(pkg="./index", entry="VerifC07", bounds="m=1", reach=["searched"]),
+            dict(pkg="./index", entry="VerifC07", bounds="m=2,maxlevel=0,modes=2,maxk=3", reach=["searched"]),
+        ],
+        "thorough": [
+            dict(pkg="./index", entry="VerifC07", bounds="m=1,maporder=1", reach=["searched"]),
+            dict(pkg="./index", entry="VerifC07", bounds="m=1,dim=2,grid=7,modes=2", reach=["searched"]),
+            dict(pkg="./index", entry="VerifC07", bounds="m=2,maxlevel=0,modes=4,maxk=2,maxef=5", reach=["searched"]),
+            dict(pkg="./index", entry="VerifC07", bounds="m=2,maxlevel=1,modes=1,maxk=3,maxef=4", reach=["searched"]),
+        ],
+    },
+    outside="the recall floor on random sets of thousands of items (statistical, not decided); M>2; Euclidean/cosine kernels (Hnsw only compares distances; the Manhattan kernel is the one executed); levels above 1",
+    assumptions=HNSW_ASSUME,
+)
+
+PROPS["C04"] = dict(
+    level="model_checking",
+    technique="bounded symbolic execution of go/ssa (gosmt) + SMT (z3): one symbolic log applied to three stand-alone replicas",
+    explanation="log of up to 3 changes (all six kinds in the batch run) over 2 ids; replica B replays all bytes with independent map iteration orders; replica C has applied any prefix <= cut, restores the snapshot taken on A after entry cut (every cut 0..L), applies the rest; contents compared id by id, outcomes on A compared with the sequential reference",
+    runs={
+        "quick": [
+            dict(pkg="./storage", entry="VerifC04", bounds="ops=3,metashapes=2,kinds=3", reach=["end"]),
+            dict(pkg="./storage", entry="VerifC04", bounds="ops=2,metashapes=2,kinds=6,maporder=1", reach=["end"]),
+        ],
+        "thorough": [
+            dict(pkg="./storage", entry="VerifC04", bounds="ops=4,metashapes=2,kinds=3", reach=["end"]),
+            dict(pkg="./storage", entry="VerifC04", bounds="ops=3,metashapes=2,kinds=6,cfg=1", reach=["end"]),
+            dict(pkg="./storage", entry="VerifC04", bounds="ops=3,metashapes=3,kinds=3,ids=3,maporder=1,cfg=2", reach=["end"]),
+        ],
+    },
+    outside="logs longer than the bound; graph shape (legitimately nondeterministic); transport of the snapshot; per-entry outcomes on followers are not observable (no notification channel exists there) - equality of contents after every log is what is compared",
+    assumptions=HNSW_ASSUME + ["proto.Marshal/Unmarshal are an opaque codec (deep copy)"],
+)
